@@ -720,6 +720,9 @@ class BGP(protocol.Protocol):
                     del value14['nlri']
                     key = "{"
                     for k in sorted(prefix.keys()):
+                        if k == 'label':
+                            # the label is not part of a VPN route's identity (withdrawals carry a dummy one)
+                            continue
                         key += '"' + k + '"'
                         key += ':'
                         key += '"' + str(prefix[k]) + '"'
@@ -773,6 +776,9 @@ class BGP(protocol.Protocol):
                 for prefix in attr[15]['withdraw']:
                     key = "{"
                     for k in sorted(prefix.keys()):
+                        if k == 'label':
+                            # the label is not part of a VPN route's identity (withdrawals carry a dummy one)
+                            continue
                         key += '"' + k + '"'
                         key += ':'
                         key += '"' + str(prefix[k]) + '"'
@@ -820,6 +826,9 @@ class BGP(protocol.Protocol):
                     del value14['nlri']
                     key = "{"
                     for k in sorted(prefix.keys()):
+                        if k == 'label':
+                            # the label is not part of a VPN route's identity (withdrawals carry a dummy one)
+                            continue
                         key += '"' + k + '"'
                         key += ':'
                         key += '"' + str(prefix[k]) + '"'
@@ -860,6 +869,9 @@ class BGP(protocol.Protocol):
                 for prefix in attr[15]['withdraw']:
                     key = "{"
                     for k in sorted(prefix.keys()):
+                        if k == 'label':
+                            # the label is not part of a VPN route's identity (withdrawals carry a dummy one)
+                            continue
                         key += '"' + k + '"'
                         key += ':'
                         key += '"' + str(prefix[k]) + '"'
